@@ -24,17 +24,17 @@ RULE = (
     "reducing functions return python/numpy scalars, 0-d/1-d/2-d arrays and strings.  Molecule strata: random "
     "sparse/dense graphs, rings, stars, paths with permuted labels, forests, isolated atoms, self bonds on 0-24 atoms "
     "(every root, as index array and as mask, BondList / AtomArray / AtomArrayStack input) and large graphs (paths, "
-    "rings, combs, deep random trees, stars, many small molecules) of 10^3 .. 4x10^3 atoms per component (10^4 and "
+    "rings, combs, grids, deep random trees, stars, dense graphs, many small molecules) of 10^3 .. 4x10^3 atoms per component (10^4 and "
     "3x10^4 as soon as the `deep_bond_path` trigger is not quarantined).  A case is non-trivial when it has at least "
     "two segments / one bond; distinct = distinct digest of the logged inputs."
 )
 STRATA = {
-    "residue_views": (2400, 100000),
-    "chain_views": (2400, 100000),
-    "segment_generic": (1600, 50000),
-    "index_arrays": (1600, 50000),
-    "molecules_small": (1600, 50000),
-    "molecules_large": (40, 700),
+    "residue_views": (5000, 100000),
+    "chain_views": (5000, 100000),
+    "segment_generic": (3000, 50000),
+    "index_arrays": (3000, 50000),
+    "molecules_small": (3000, 50000),
+    "molecules_large": (64, 900),
 }
 REQUIRED_ORACLES = [
     "starts_vs_recomputation",
@@ -94,8 +94,8 @@ ASSUMPTIONS = [
     "interpreted like a Python index; the docs are silent",
     "the worker's soft stack limit is pinned to 8 MiB (the usual default) so that the recursion-depth class is "
     "deterministic; clean strata keep every connected component <= 4000 atoms while `deep_bond_path` is quarantined "
-    "(ASan frames of _find_connected are ~1.3 kB: 6000 deep is fine, 7000 overflows 8 MiB; gcc -O1 ~16000; the "
-    "installed -O2 module ~60000)",
+    "(measured with an 8 MiB stack: the ASan build of _find_connected recurses 6800 deep and overflows at 7000, "
+    "the gcc -O1 build 16000 / 16500, the installed module 64000 / 66000)",
 ]
 MIN_CASES_PER_WORKER = 40
 MANIFEST = {
@@ -113,9 +113,9 @@ MANIFEST = {
     "level_note": "Trusts the per-atom model (audited in selftest against an exhaustive enumeration of all annotation "
                   "sequences of length <= 3 over a 2-letter vocabulary and of all 64 graphs on 4 atoms against a "
                   "transitive closure), numpy, and that the generated bonds.c corresponds to bonds.pyx.  Order of "
-                  "molecules is not judged.  Path graphs above 4000 atoms (S18), string-valued scalar results (S19), "
-                  "empty arrays with add_exclusive_stop / apply (S24/S25) and res_id spans beyond int64 (S26) are "
-                  "quarantined into probes while listed as known.",
+                  "molecules is not judged.  Trigger classes deep_bond_path (components above 4000 atoms, S18), "
+                  "str_scalar_result (S19), empty_array_exclusive_stop, empty_array_apply and "
+                  "res_id_span_overflows_int64 are quarantined into probes while listed as known findings.",
     "design_ref": "DESIGN.md section 6, C17",
 }
 
@@ -298,8 +298,10 @@ MODES = ["walk", "walk", "walk", "walk", "single_atom", "one_residue", "name_onl
          "same_resid_next_chain", "decreasing", "increasing"]
 
 
-def gen_n(rng):
+def gen_n(rng, tier="quick"):
     r = rng.random()
+    if tier == "thorough" and r > 0.995:
+        return int(rng.integers(201, 1501))
     if r < 0.04:
         return 0
     if r < 0.10:
@@ -380,7 +382,8 @@ def _f_zero_d(x):
 
 
 def _f_first_last(x):
-    return np.array([x[0], x[-1]])
+    # dtype pinned: apply_*_wise documents "same shape and data type" for every call
+    return np.array([x[0], x[-1]], dtype=x.dtype)
 
 
 def _f_pystr(x):
@@ -485,6 +488,16 @@ class Fam:
             self.iter = lambda: segs.segment_iter(arr, starts)
 
 
+def _call_valid(ctx, oracle, what, fn, obj, idx, n):
+    try:
+        return fn(obj)
+    except (ValueError, IndexError) as e:
+        ctx.exc(e)
+        ctx.oracle(oracle)
+        ctx.fail(oracle, "%s(%r) on %d atoms raised %s: %s although every index is valid"
+                 % (what, idx, n, type(e).__name__, e))
+
+
 def check_index_views(ctx, fam, seg, obj, idx):
     """masks / starts_for / positions for a valid index object."""
     n = len(seg)
@@ -493,7 +506,7 @@ def check_index_views(ctx, fam, seg, obj, idx):
         first_of.setdefault(s, i)
     # masks
     ctx.op(fam.kind + "_masks")
-    m = fam.masks(obj)
+    m = _call_valid(ctx, "masks_vs_recomputation", fam.kind + " masks", fam.masks, obj, idx, n)
     exp = [[seg[j] == seg[k] for j in range(n)] for k in idx]
     ok = isinstance(m, np.ndarray) and m.dtype == bool and m.shape == (len(idx), n) and m.tolist() == exp
     ctx.check(ok, "masks_vs_recomputation",
@@ -501,14 +514,14 @@ def check_index_views(ctx, fam, seg, obj, idx):
               got=_short(m), expected=exp if len(exp) < 12 else "...")
     # starts_for
     ctx.op(fam.kind + "_starts_for")
-    sf = fam.starts_for(obj)
+    sf = _call_valid(ctx, "starts_for_vs_recomputation", fam.kind + " starts_for", fam.starts_for, obj, idx, n)
     exp = [first_of[seg[k]] for k in idx]
     ok = isinstance(sf, np.ndarray) and sf.shape == (len(idx),) and sf.tolist() == exp
     ctx.check(ok, "starts_for_vs_recomputation",
               "%s starts_for(%r) = %s, per-atom recomputation %r" % (fam.kind, idx, _short(sf), exp))
     # positions
     ctx.op(fam.kind + "_positions")
-    ps = fam.positions(obj)
+    ps = _call_valid(ctx, "positions_vs_recomputation", fam.kind + " positions", fam.positions, obj, idx, n)
     exp = [seg[k] for k in idx]
     ok = isinstance(ps, np.ndarray) and ps.shape == (len(idx),) and ps.tolist() == exp
     ctx.check(ok, "positions_vs_recomputation",
@@ -627,7 +640,7 @@ def check_family(ctx, rng, fam, arr, seg, n_apply=3):
     check_iter(ctx, fam, arr, seg)
 
 
-def check_starts(ctx, kind, arr, seg, rid, name, ch):
+def check_starts(ctx, kind, arr, seg, rid, name, ch, force=False):
     get_starts = struc.get_residue_starts if kind == "residue" else struc.get_chain_starts
     n = len(seg)
     exp = ref_starts(seg)
@@ -638,7 +651,7 @@ def check_starts(ctx, kind, arr, seg, rid, name, ch):
     got = get_starts(arr, add_exclusive_stop=False)
     ctx.check(_is_int_array(got) and got.tolist() == exp, "starts_vs_recomputation",
               "get_%s_starts(add_exclusive_stop=False) = %s, annotations change at %r" % (kind, _short(got), exp))
-    if n > 0 or ctx.allowed("empty_array_exclusive_stop"):
+    if n > 0 or force or ctx.allowed("empty_array_exclusive_stop"):
         ctx.op(kind + "_starts_with_stop")
         got = get_starts(arr, add_exclusive_stop=True)
         ctx.check(_is_int_array(got) and got.tolist() == exp + [n], "starts_vs_recomputation",
@@ -665,7 +678,7 @@ def check_starts(ctx, kind, arr, seg, rid, name, ch):
 # ====================================================================== cases
 def build_annotated(ctx, rng, n=None):
     if n is None:
-        n = gen_n(rng)
+        n = gen_n(rng, ctx.tier)
     mode = str(rng.choice(MODES))
     ch, rid, ins, name = gen_annotations(rng, n, mode)
     depth = int(rng.integers(1, 4)) if rng.random() < 0.2 else 0
@@ -689,7 +702,7 @@ def case_views(kind, rng, ctx):
 
 
 def case_generic(rng, ctx):
-    n = gen_n(rng)
+    n = gen_n(rng, ctx.tier)
     if n == 0:
         n = 1
     k = int(rng.integers(0, min(n, 12)))
@@ -972,6 +985,16 @@ def gen_large_graph(rng, kind, n):
                             for a, b in ((0, 1), (1, 2), (2, 3), (3, 0), (3, 4))])
     elif kind == "isolated":
         e = np.zeros((0, 2), dtype=np.int64)
+    elif kind == "grid":
+        w = max(2, int(np.sqrt(n)))
+        ids = np.arange(n)
+        right = ids[(ids % w != w - 1) & (ids + 1 < n)]
+        down = ids[ids + w < n]
+        e = np.concatenate([np.stack([right, right + 1], axis=1), np.stack([down, down + w], axis=1)])
+    elif kind == "dense":
+        iu = np.triu_indices(n, 1)
+        keep = rng.random(len(iu[0])) < 0.08
+        e = np.stack([iu[0][keep], iu[1][keep]], axis=1)
     else:
         raise AssertionError(kind)
     e = e.astype(np.int64)
@@ -989,8 +1012,10 @@ def case_molecules_large(rng, ctx):
     if deep_ok:
         sizes += [10000, 30000]
     kind = str(rng.choice(["path", "path", "ring", "comb", "deep_tree", "star", "two_paths", "small_molecules",
-                           "isolated"]))
+                           "isolated", "grid", "dense"]))
     n = int(rng.choice(sizes))
+    if kind == "dense":
+        n = int(rng.choice([150, 300, 500]))   # get_all_bonds is (n, max degree); DFS depth close to n
     if kind == "star":
         n = min(n, 2000)                       # get_all_bonds is (n, n-1)
     if kind in ("small_molecules", "isolated"):
@@ -1087,12 +1112,12 @@ def selftest(ctx):
             assert ref_segments("residue", ch, rid, ins, nm) == list(range(12))
         if mode == "one_residue":
             assert ref_segments("residue", ch, rid, ins, nm) == [0] * 12
-    for kind in ("path", "ring", "comb", "deep_tree", "star", "two_paths", "small_molecules", "isolated"):
+    for kind in ("path", "ring", "comb", "deep_tree", "star", "two_paths", "small_molecules", "isolated", "grid"):
         lab, e = gen_large_graph(rng, kind, 50)
         assert e.ndim == 2 and e.shape[1] == 2 and (e.size == 0 or (0 <= e.min() and e.max() < 50))
         comp, of = ref_components(50, e)
         want = {"path": 1, "ring": 1, "comb": 1, "deep_tree": 1, "star": 1, "two_paths": 2,
-                "small_molecules": 10, "isolated": 50}[kind]
+                "small_molecules": 10, "isolated": 50, "grid": 1}[kind]
         assert len(comp) == want, (kind, len(comp))
 
 
@@ -1139,7 +1164,7 @@ def _probe_empty_stop(ctx):
         arr = make_array(None, 0, [], [], [], [], depth)
         for kind in ("residue", "chain"):
             ctx.log("empty_array", kind, "stack_depth", depth)
-            check_starts(ctx, kind, arr, [], [], [], [])
+            check_starts(ctx, kind, arr, [], [], [], [], force=True)
             fam = Fam(kind, arr=arr)
             for obj in (np.array([], dtype=np.int64), [], ()):
                 check_index_views(ctx, fam, [], obj, [])
